@@ -36,9 +36,9 @@ CONSTANTS Caps,        \* capacities of the Ethernet buffer explored by part A
           BigLens,     \* value length classes of BigCode: {0, 1, typical, 254, 255}; 255 is the largest legal length
           IdClasses,   \* classes of the echo identifier of the echo send functions (part C), see EchoIdClasses
           NICs,        \* NIC configurations (names, concretised by the driver)
-          Parts        \* subset of {"build", "dhcp", "send"}
+          Parts        \* subset of {"build", "alias", "dhcp", "send"}
 
-VARIABLES phase,  \* "idle" | "build" | "done" | "stop" | "vec"
+VARIABLES phase,  \* "idle" | "build" | "done" | "rewritten" | "stop" | "vec"
           cap,    \* capacity of the buffer under construction
           st,     \* layers, outermost first
           cur,    \* index of the innermost layer not yet attached to its parent
@@ -273,10 +273,102 @@ C03_TooBigExact ==
       LET h == hist[Len(hist)] IN
       \/ h.a = "appext" /\ h.n > Rem(Top)
       \/ h.a = "etherappext" /\ h.n + 14 > cap
-C03_NeverPastCap == phase \in {"build", "done", "stop"} => \A i \in 1..Len(st) : st[i].off + st[i].len <= cap
+C03_NeverPastCap == phase \in {"build", "done", "rewritten", "stop"} => \A i \in 1..Len(st) : st[i].off + st[i].len <= cap
+
+
+\* ---- rewriting the payload of a finished frame in place -------------------------------------------------
+\* The innermost in-place payload of a finished Ethernet / IP (/ UDP) frame is replaced by n2 new bytes and the
+\* length fields are brought up to date with SetPayload / AppendPayload applied to views that ALREADY carry a
+\* payload: the slices returned by the first build (via = "result") or Frame.IP4() / IP6() / UDP() of the parsed
+\* frame (via = "parsed"); both have length header + old payload.  Mechanism formulas as in the code:
+\*   IP4 / IP6 / UDP Set and AppendPayload return p[:header+n] and write the matching length field.
+\* (Until 328f94d / ee3eca1 all but IP4.SetPayload returned p[:len(p)+n]: a slice longer than its own length
+\* field when len(p) > header -- the deviations KF_SetPayloadOnPayload / KF_AppendPayloadOnPayload.)
+\* since the fixes 328f94d / ee3eca1 every Set / AppendPayload returns p[:header+n] whatever the receiver's length
+HdrLen(k) == CASE k = "ip4" -> 20 [] k = "ip6" -> 40 [] k = "udp" -> 8
+ReLen(k, mode, old, n) == HdrLen(k) + n
+ReKF(k, mode, old)   == {}      \* no labelled deviation at present (the label names are kept for a recurrence)
+Rewritable == /\ phase = "done" /\ Len(st) \in {3, 4}
+              /\ st[2].k \in {"ip4", "ip6"} /\ st[Len(st)].k = "raw" /\ st[Len(st)].sub = "in"
+              /\ (Len(st) = 4 => st[3].k = "udp")
+              /\ st[1].len = 14 + st[2].len                    \* no Ethernet padding: the parsed views end with the packet
+BRewrite(n2, mu, mi, via) ==
+    /\ Rewritable
+    /\ LET hasU == Len(st) = 4
+           ip == st[2]
+           leaf == st[Len(st)]
+           ulen == IF hasU THEN ReLen("udp", mu, st[3].len, n2) ELSE 0
+           ipn  == IF hasU THEN ulen ELSE n2                       \* what the IP layer is told its payload is
+           iplen == ReLen(ip.k, mi, ip.len, ipn)
+           kf == (IF hasU THEN ReKF("udp", mu, st[3].len) ELSE {}) \cup ReKF(ip.k, mi, ip.len)
+           ideal == [udp |-> IF hasU THEN 8 + n2 ELSE 0, ip |-> ip.hl + (IF hasU THEN 8 + n2 ELSE n2)]
+       IN /\ n2 # leaf.len
+          /\ ip.off + iplen <= cap /\ (hasU => st[3].off + ulen <= cap) /\ leaf.off + n2 <= cap    \* everything fits
+          /\ st' = [i \in 1..Len(st) |->
+                      IF i = 1 THEN [st[1] EXCEPT !.len = 14 + iplen]
+                      ELSE IF i = 2 THEN [ip EXCEPT !.len = iplen, !.lf = LF(ip.k, ipn)]
+                      ELSE IF i = 3 /\ hasU THEN [st[3] EXCEPT !.len = ulen, !.lf = 8 + n2]
+                      ELSE [leaf EXCEPT !.len = n2]]
+          /\ phase' = "rewritten" /\ res' = "ok" /\ UNCHANGED <<cap, cur>>
+          /\ Step([a |-> "rewrite", n |-> n2, mu |-> mu, mi |-> mi, via |-> via,
+                   exp |-> [udplen |-> ulen, udplf |-> IF hasU THEN 8 + n2 ELSE -1, iplen |-> iplen, iplf |-> LF(ip.k, ipn),
+                            etherlen |-> 14 + iplen, ideal |-> ideal, kf |-> kf]])
+    /\ UNCHANGED vec
+
+\* property level: after ANY such sequence the slice lengths agree with the length fields, layer by layer
+RewriteConsistent ==
+    /\ st[2].len = st[2].hl + PayloadByField(st[2], st[1].len)
+    /\ st[1].len = 14 + st[2].len
+    /\ (Len(st) = 4 => /\ st[3].len = 8 + PayloadByField(st[3], 0) /\ PayloadByField(st[2], 0) = st[3].len
+                       /\ PayloadByField(st[3], 0) = st[4].len)
+    /\ (Len(st) = 3 => PayloadByField(st[2], 0) = st[3].len)
+C03_RewriteConsistentUnlessKF ==
+    phase = "rewritten" => (RewriteConsistent <=> hist[Len(hist)].exp.kf = {})
+
+\* ---- aliased arguments ("reply in place") ---------------------------------------------------------------
+\* An encoder is handed views of the very buffer it encodes into: the value supplied is the value the view
+\* had BEFORE the call.  Mechanism: the order in which the encoder writes byte ranges and reads its slice
+\* arguments; a pattern is supported iff no argument's view is overwritten before it is read.
+W(lo, hi, arg) == [lo |-> lo, hi |-> hi, arg |-> arg]
+V(lo, hi) == [lo |-> lo, hi |-> hi]
+Disjoint(a, b) == a.hi < b.lo \/ b.hi < a.lo
+EtherWrites == <<W(0, 5, "dst"), W(6, 11, "src")>>                               \* layer_ethernet.go:201-202
+ArpWrites   == <<W(8, 13, "sha"), W(14, 17, "spa"), W(18, 23, "tha"), W(24, 27, "tpa")>>   \* layer_arp.go:78-81 (netip values: no views)
+\* EncodeDHCP4 into the request buffer: `order = append(order, 1, 33, 3)` writes 3 bytes behind the parameter
+\* request list when `order` is a view of it; all option values are then copied to a scratch buffer (5000..) and
+\* only after that written back at 240.. (layer_dhcp4.go:303-329)
+DhcpWrites(prlEnd, withOrder) ==
+    (IF withOrder THEN <<W(prlEnd + 1, prlEnd + 3, "fixedlist")>> ELSE <<>>) \o
+    <<W(5000, 5999, "cid"), W(6000, 6099, "order"), W(240, 999, "scratch")>>
+AliasCases == {
+    [enc |-> "ether", pat |-> "dst=oldsrc", writes |-> EtherWrites, views |-> [dst |-> V(6, 11)], required |-> TRUE],
+    [enc |-> "ether", pat |-> "same", writes |-> EtherWrites, views |-> [dst |-> V(0, 5), src |-> V(6, 11)], required |-> TRUE],
+    [enc |-> "ether", pat |-> "src=olddst", writes |-> EtherWrites, views |-> [src |-> V(0, 5)], required |-> FALSE],
+    [enc |-> "arp", pat |-> "same", writes |-> ArpWrites, views |-> [sha |-> V(8, 13), tha |-> V(18, 23)], required |-> TRUE],
+    [enc |-> "arp", pat |-> "tha=oldsha", writes |-> ArpWrites, views |-> [tha |-> V(8, 13)], required |-> FALSE],
+    [enc |-> "arp", pat |-> "sha=oldtha", writes |-> ArpWrites, views |-> [sha |-> V(18, 23)], required |-> TRUE],
+    \* request options: "apart" = 53 | 61 (data 245..251) | 55 (data 254..257); "adjacent" = 53 | 55 (data 245..248) | 61 (data 251..257)
+    [enc |-> "dhcp", pat |-> "nak:cid=view", writes |-> DhcpWrites(257, FALSE), views |-> [cid |-> V(245, 251)], required |-> TRUE],
+    [enc |-> "dhcp", pat |-> "offer:order=view", writes |-> DhcpWrites(257, TRUE), views |-> [order |-> V(254, 257)], required |-> TRUE],
+    [enc |-> "dhcp", pat |-> "both:apart", writes |-> DhcpWrites(257, TRUE), views |-> [order |-> V(254, 257), cid |-> V(245, 251)], required |-> TRUE],
+    [enc |-> "dhcp", pat |-> "both:adjacent", writes |-> DhcpWrites(248, TRUE), views |-> [order |-> V(245, 248), cid |-> V(251, 257)], required |-> FALSE],
+    \* the NS / NA marshal functions allocate their result: views of a frame that is about to be reused are safe
+    [enc |-> "ns", pat |-> "mac=view", writes |-> <<W(10000, 10031, "mac")>>, views |-> [mac |-> V(6, 11)], required |-> TRUE],
+    [enc |-> "na", pat |-> "mac=view", writes |-> <<W(10000, 10031, "mac")>>, views |-> [mac |-> V(6, 11)], required |-> TRUE]}
+AliasSupported(c) ==
+    \A i, j \in 1..Len(c.writes) :
+        (i < j /\ c.writes[j].arg \in DOMAIN c.views) => Disjoint(c.writes[i], c.views[c.writes[j].arg])
+AliasVec(c) ==
+    /\ phase = "idle" /\ "alias" \in Parts
+    /\ phase' = "vec"
+    /\ vec' = [part |-> "alias", enc |-> c.enc, pat |-> c.pat, required |-> c.required, supported |-> AliasSupported(c)]
+    /\ UNCHANGED <<cap, st, cur, res, hist>>
+AliasNext == phase = "idle" /\ "alias" \in Parts /\ \E c \in AliasCases : AliasVec(c)
+\* the reply-in-place patterns the handlers rely on must be supported by the write order of the encoders
+C03_AliasRequiredSupported == (phase = "vec" /\ vec.part = "alias" /\ vec.required) => vec.supported
 
 \* Parse classification of a composed frame (session Parse table, documented in layer_frame.go)
-Classify == IF phase # "done" THEN "none"
+Classify == IF phase \notin {"done", "rewritten"} THEN "none"
             ELSE CASE st[2].k = "arp" -> "ARP"
                    [] Len(st) >= 3 /\ st[3].k = "udp" ->
                         (CASE st[3].sub = "dhcp" -> "DHCP4" [] st[3].sub = "mdns" -> "MDNS" [] st[3].sub = "nbns" -> "NBNS"
@@ -299,6 +391,12 @@ BuildNext == "build" \in Parts /\ phase \in {"idle", "build"} /\
            \E n \in (IF kind \in {"ns", "na"} THEN {32} ELSE NSet(Rem(Top)) \cup {8, 50}) : BAppendExt(kind, n)
     \/ phase = "build" /\ Len(st) = 1 /\ \E n \in NSet(cap - 14) \cup {28, 46}, slack \in {0, 7} : BEtherAppendExt(n, slack)
     \/ \E m \in {"set", "append"} : BAttach(m)
+
+\* n2: shorter and longer than the payload it replaces
+RewriteNext == "build" \in Parts /\ phase = "done" /\ Rewritable /\
+    \E n2 \in {n \in {0, st[Len(st)].len - 1, st[Len(st)].len + 1, st[Len(st)].len + 7} : n >= 0} :
+    \E mu \in (IF Len(st) = 4 THEN {"set", "append"} ELSE {"set"}), mi \in {"set", "append"}, via \in {"result", "parsed"} :
+        BRewrite(n2, mu, mi, via)
 
 -----------------------------------------------------------------------------
 (* Part C: exported send functions                                         *)
@@ -432,6 +530,10 @@ RA(np, rd, d) ==
         ideal == Fr("icmp6", "hostmac", i.mac, "hostlla", i.ip, Hop6(i.ip), -1, -1, "ra", f)
         \* RouterAdvertisement.marshal yields the body only; the send function prepends the ICMPv6 header (fix 5720c60)
     IN IF np = 0 THEN [clean |-> TRUE, exp |-> Res(-1, "any", NoFrame, {}), mech |-> Res(0, "nil", NoFrame, {})]
+       \* 46 prefix options (32 bytes each) do not fit one Ethernet frame: the caller must get an error and no frame.
+       \* icmp6SendPacket drops the error of IP6.AppendPayload and goes on with a nil packet (layer_icmp.go:478): panic
+       ELSE IF np > 3 THEN [clean |-> TRUE, exp |-> Res(0, "ErrPayloadTooBig", NoFrame, {}),
+                            mech |-> Res(0, "panic", NoFrame, {KF("err", "KF_ICMP6SendTooBigPanics")})]
        ELSE [clean |-> TRUE, exp |-> Res(1, "nil", Relax(ideal), {}),
              mech |-> Res(1, "nil", ideal, {})]
 
@@ -547,6 +649,9 @@ Call(c) ==
       [] c.f = "dhcp4.SendDiscoverPacket" -> Discover(c.ch, c.ci, c.name)
       [] c.f = "dhcp4.ServerReply" -> ServerReply(c.mt, c.bcast)
       [] c.f = "dhcp4.ForgedDecline" -> ForgedDecline
+      \* two OFFERs of another server arrive back to back in ONE reused receive buffer: the DECLINE forged for the
+      \* first must carry the FIRST offer's chaddr / xid / client identifier (the vector judges that one)
+      [] c.f = "dhcp4.ForgedDeclinePair" -> ForgedDecline
       [] c.f = "dhcp4.ForgedRelease" -> ForgedRelease
       [] c.f = "dns.SendMDNSQuery" -> MDNSQuery
       [] c.f = "dns.SendLLMNRQuery" -> LLMNRQuery
@@ -575,7 +680,7 @@ ICMP6SendNeighbourSolicitation(n) ==
         Send([f |-> "ICMP6SendNeighbourSolicitation", src |-> s, dst |-> d, ip |-> ip], n)
 ICMP6SendRouterSolicitation(n) == Send([f |-> "ICMP6SendRouterSolicitation"], n)
 ICMP6SendRouterAdvertisement(n) ==
-    \E np \in 0..3, rd \in BOOLEAN, d \in {"lib:allnodes", "u:lla1", "u:gua1"} :
+    \E np \in (0..3) \cup {46}, rd \in BOOLEAN, d \in {"lib:allnodes", "u:lla1", "u:gua1"} :
         Send([f |-> "ICMP6SendRouterAdvertisement", np |-> np, rdnss |-> rd, dst |-> d], n)
 Ping(n)  == \E d \in Dst4 : Send([f |-> "Ping", dst |-> d], n)
 Ping6(n) == \E s \in Src6, d \in Dst6 : Send([f |-> "Ping6", src |-> s, dst |-> d], n)
@@ -592,7 +697,7 @@ DhcpSendDiscover(n) == \E ch \in {"mac1", "mac2", "hostmac"}, ci \in {"zero4", "
                         Send([f |-> "dhcp4.SendDiscoverPacket", ch |-> ch, ci |-> ci, name |-> nm], n)
 DhcpServerReply(n)  == \E mt \in {"2", "5", "6"}, b \in BOOLEAN, cid \in {"mac", "long"} :
                         (b \/ mt = "5") /\ Send([f |-> "dhcp4.ServerReply", mt |-> mt, bcast |-> b, cid |-> cid], n)
-DhcpForged(n)       == \E k \in {"dhcp4.ForgedDecline", "dhcp4.ForgedRelease"}, cid \in {"mac", "long"} : Send([f |-> k, cid |-> cid], n)
+DhcpForged(n)       == \E k \in {"dhcp4.ForgedDecline", "dhcp4.ForgedDeclinePair", "dhcp4.ForgedRelease"}, cid \in {"mac", "long"} : Send([f |-> k, cid |-> cid], n)
 DnsQueries(n)       == \E k \in {"dns.SendMDNSQuery", "dns.SendLLMNRQuery", "dns.SendSSDPSearch", "dns.SendNBNSNodeStatus"} : Send([f |-> k], n)
 DnsSleepProxy(n)    == \E s \in {HostAddr4, A("mac1", "lan4"), HostLLAAddr}, d \in {A("mac1", "lan4"), A("bcast", "bcast4"), A("01:00:5e:00:00:fb", "224.0.0.251")} :
                         Send([f |-> "dns.SendSleepProxyResponse", src |-> s, dst |-> d], n)
@@ -630,7 +735,7 @@ Init == /\ phase = "idle" /\ cap = 0 /\ st = <<>> /\ cur = 0 /\ res = "ok" /\ hi
 DhcpNext == phase = "idle" /\ "dhcp" \in Parts /\ \E s \in DhcpSets, o \in DhcpOrders, c \in DhcpCaps :
                \E bl \in (IF BigCode \in s THEN BigLens ELSE {0}) : DhcpVec(s, o, c, bl)
 
-Next == BuildNext \/ DhcpNext \/ SendNext
+Next == BuildNext \/ RewriteNext \/ AliasNext \/ DhcpNext \/ SendNext
 Spec == Init /\ [][Next]_vars
 
 C03_Dhcp == (phase = "vec" /\ vec.part = "dhcp" /\ vec.exp.res = "ok") =>
@@ -639,7 +744,7 @@ C03_Dhcp == (phase = "vec" /\ vec.part = "dhcp" /\ vec.exp.res = "ok") =>
               /\ C03_DhcpMaskFirst(s, o) /\ C03_DhcpPadded(s, vec.big)
               /\ vec.exp.len = Max(300, 241 + OptBytes(s, vec.big))
 
-TypeOK == /\ phase \in {"idle", "build", "done", "stop", "vec"}
+TypeOK == /\ phase \in {"idle", "build", "done", "rewritten", "stop", "vec"}
           /\ res \in {"ok", "nil", "ErrPayloadTooBig", "panic"}
           /\ cur \in 0..4 /\ Len(st) <= 4
 =============================================================================
